@@ -120,7 +120,7 @@ def run(ctx):
     obs = read_ndjson(of)
     if len(obs) != len(hist):
         raise Infra("driver returned %d observation lists for %d histories" % (len(obs), len(hist)))
-    ok = nconn = nres = 0
+    ok = nconn = nres = nfail = 0
     for h, ol in zip(hist, obs):
         conns = [(i, o) for i, o in enumerate(h["ops"]) if o["op"] == "connect"]
         if len(conns) != len(ol):
@@ -131,6 +131,11 @@ def run(ctx):
             probs = []
             if g["panic"]:
                 probs.append("panic: " + g["panic"][:300])
+            elif o["expect"] == "fail":
+                # the client's certificate does not satisfy the server's policy: no resumption, and the full handshake fails
+                nfail += 1
+                if g["complete"] or not g["srv_err"]:
+                    probs.append("the server completed a handshake (resumed: %s) with a client whose certificate its policy does not accept" % g["srv_resumed"])
             elif not g["complete"]:
                 probs.append("connection failed instead of resuming or falling back to a full handshake: client err=%r server err=%r" % (g["cli_err"], g["srv_err"]))
             else:
@@ -161,13 +166,14 @@ def run(ctx):
             ctx.violation(bad, {"history": h, "observed": ol})
         else:
             ok += 1
-    ctx.log("histories conforming: %d / %d (%d connections, %d expected resumptions)" % (ok, len(hist), nconn, nres))
+    ctx.log("histories conforming: %d / %d (%d connections, %d expected resumptions, %d expected client-certificate failures)" % (ok, len(hist), nconn, nres, nfail))
     if nres < 50:
         raise Infra("vacuous: only %d resumptions exercised" % nres)
     ctx.cov["evaluations"] = len(hist)
     ctx.cov["distinct_nontrivial"] = len(hist)
     ctx.cov["connections"] = nconn
     ctx.cov["expected_resumptions"] = nres
+    ctx.cov["expected_policy_failures"] = nfail
     ctx.cov["exhaustive"] = False
     ctx.cov["rule"] = ("history = distinct sequence of 6 operations of TLCPResume (connect to one of two names, rotate keys keeping/dropping the old one, change server or client suites, "
                        "change ClientAuth / client certificate, disable tickets, tamper with a region of the cached ticket) for cache capacity 1..3, GMSSL and TLS; plus single-byte ticket tamperings")
